@@ -17,6 +17,18 @@ var mustC07 = []string{"encode-ok", "typed-prefix-rejected", "auto-prefix-reject
 var mustC14 = []string{"writeblock-ok", "writeblock-flush-ok", "writeblock==encodeblock", "writecolumn-flush-ok", "writecolumn==encodecolumn"}
 var mustC01 = []string{"rows-after-append", "encode-ok", "prefix-untouched", "encode-again-ok", "bytes-independent-of-buffer", "typed-decode-ok", "block-header", "typed-rows", "typed-values", "typed-exhausted", "auto-decode-ok", "auto-shape", "auto-name", "auto-type", "auto-column-kind", "auto-rows", "auto-values", "auto-exhausted"}
 
+var mustC06 = []string{"rows-consistent"}
+
+func c06cfg(c *sym.Config) {
+	c.AllocCeiling = 100_000_000 * 512
+	c.MaxConcretize = 12
+}
+
+func c06cfg6(c *sym.Config) {
+	c.AllocCeiling = 100_000_000 * 512
+	c.MaxConcretize = 6
+}
+
 var props = map[string]*propDef{
 	"C14": {
 		ID: "C14", Level: "model_checking", Rule: ruleDefault,
@@ -84,6 +96,25 @@ var props = map[string]*propDef{
 		Harnesses: []harnessDef{
 			{Name: "proto.VerifC15GenLeaves", DualTags: "verif,purego", Quick: map[string]int{"maxrows": 2}, Thorough: map[string]int{"maxrows": 3}, Must: []string{"dual:encoded", "dual:written", "dual:decode-err", "dual:rows"}},
 			{Name: "proto.VerifC15BoolUUID", DualTags: "verif,purego", Quick: map[string]int{"maxrows": 2}, Thorough: map[string]int{"maxrows": 3}, Must: []string{"dual:encoded", "dual:written", "dual:decode-err", "dual:rows", "dual:row"}},
+		},
+	},
+	"C06": {
+		ID: "C06", Level: "model_checking", Rule: ruleDefault,
+		Assumptions: append([]string{
+			"allocation ceiling: a request is a violation when it can exceed maxRowsInBLock (100M) x 512 B = 51.2e9 bytes, the largest by-design column allocation; replays run under an address-space limit so that such a request aborts natively",
+			"counts that become shapes are enumerated up to 24 values per site; larger counts are cut as out-of-bound paths (they need more input bytes than the harness provides)",
+		}, baseAssumptions...),
+		Harnesses: []harnessDef{
+			{Name: "proto.VerifC06GenLeaves", Must: mustC06, Cfg: c06cfg, Quick: map[string]int{"maxrows": 2, "inlen": 10}, Thorough: map[string]int{"maxrows": 3, "inlen": 16}},
+			{Name: "proto.VerifC06PlainLeaves", Must: mustC06, Cfg: c06cfg, Quick: map[string]int{"maxrows": 2, "inlen": 8}, Thorough: map[string]int{"maxrows": 3, "inlen": 12}},
+			{Name: "proto.VerifC06Composites", Must: mustC06, Cfg: c06cfg, Quick: map[string]int{"maxrows": 2, "inlen": 10}, Thorough: map[string]int{"maxrows": 2, "inlen": 14}},
+			{Name: "proto.VerifC06Composites", Must: mustC06, Cfg: c06cfg6, Quick: map[string]int{"maxrows": 2, "inlen": 18, "type": 1}, Thorough: map[string]int{"maxrows": 2, "inlen": 20, "type": 1}},
+			{Name: "proto.VerifC06Composites", Must: mustC06, Cfg: c06cfg6, Quick: map[string]int{"maxrows": 2, "inlen": 24, "type": 0}, Thorough: map[string]int{"maxrows": 2, "inlen": 32, "type": 0}},
+			{Name: "proto.VerifC06Composites", Must: mustC06, Cfg: c06cfg6, Quick: map[string]int{"maxrows": 2, "inlen": 36, "type": 9}, Thorough: map[string]int{"maxrows": 2, "inlen": 38, "type": 9}},
+			{Name: "proto.VerifC06Composites", Must: mustC06, Cfg: c06cfg6, OnlyTier: "thorough", Thorough: map[string]int{"maxrows": 2, "inlen": 18, "type": 13}},
+			{Name: "proto.VerifC06LowCardinalityRaw", Cfg: c06cfg6, Quick: map[string]int{"maxrows": 2, "inlen": 36}, Thorough: map[string]int{"maxrows": 2, "inlen": 38}},
+			{Name: "proto.VerifC06Messages", Cfg: c06cfg, Quick: map[string]int{"inlen": 6}, Thorough: map[string]int{"inlen": 9}},
+			{Name: "proto.VerifC06RawBlock", Cfg: c06cfg, Quick: map[string]int{"inlen": 7}, Thorough: map[string]int{"inlen": 9}},
 		},
 	},
 }
